@@ -107,8 +107,11 @@ InitState(engine) ==
     engine    |-> engine,
     intr      |-> None,
     detIntr   |-> None,
-    rmIds     |-> {},
-    rmTgts    |-> << >>,        \* sequence of [id, col, sel]
+    rmIds     |-> {},           \* run-time removals (ctl:ruleRemoveById / ByTag / ByMsg)
+    rmRanges  |-> {},           \* set of <<lo, hi>>
+    rmTags    |-> {},
+    rmMsgs    |-> {},
+    rmTgts    |-> << >>,        \* run-time target removals: sequence of [by, id, hi, tag, col, sel]
     fired     |-> << >>,        \* sequence of [id, md]
     hsev      |-> 255,
     nops      |-> 0,            \* number of operator evaluations so far (observation)
@@ -180,12 +183,18 @@ BaseSelect(req, ord, col) ==
 Excluded(exs, key, rxMode, col) ==
   \E j \in 1..Len(exs) : SelMatchesC(exs[j], key, rxMode, col)
 
-RmExcl(st, rid, col) ==     \* run-time target removals that apply to rule rid / variable col
-  LET hits == SelectSeq(st.rmTgts, LAMBDA e : e.id = rid /\ e.col = col)
+\* run-time target removals that apply to rule r (chain links are looked up under the starter) / variable col
+RmTgtApplies(e, r) ==
+  CASE e.by = "id"  -> r.id >= e.id /\ r.id <= e.hi
+    [] e.by = "tag" -> \E t \in 1..Len(r.tags) : r.tags[t] = e.tag
+    [] e.by = "msg" -> r.msg # "" /\ r.msg = e.tag
+    [] OTHER        -> FALSE
+RmExcl(st, r, col) ==
+  LET hits == SelectSeq(st.rmTgts, LAMBDA e : RmTgtApplies(e, r) /\ e.col = col)
   IN [i \in 1..Len(hits) |-> hits[i].sel]
 
-SelectData(st, req, ord, rxMode, rid, tgt) ==
-  LET exs  == tgt.excl \o RmExcl(st, rid, tgt.col)
+SelectData(st, req, ord, rxMode, r, tgt) ==
+  LET exs  == tgt.excl \o RmExcl(st, r, tgt.col)
       raw  ==
         CASE tgt.col = "TX" ->
                LET hit == SelectSeq(st.tx, LAMBDA e : SelMatchesC(tgt.sel, e.k, rxMode, "TX"))
@@ -266,7 +275,12 @@ ASkipAfter(m)    == [A("skipAfter") EXCEPT !.s = m]
 AAllow(scope)    == [A("allow") EXCEPT !.s = scope]
 ARedirect(u)     == [A("redirect") EXCEPT !.v = u]
 ACtlRmId(id)     == [A("ctl") EXCEPT !.s = "ruleRemoveById", !.n = id]
+ACtlRmRange(lo, hi) == [A("ctl") EXCEPT !.s = "ruleRemoveByIdRange", !.n = lo, !.v = <<hi>>]
+ACtlRmTag(t)     == [A("ctl") EXCEPT !.s = "ruleRemoveByTag", !.op = t]
+ACtlRmMsg(m)     == [A("ctl") EXCEPT !.s = "ruleRemoveByMsg", !.op = m]
 ACtlRmTgt(id, col, sel) == [A("ctl") EXCEPT !.s = "ruleRemoveTargetById", !.n = id, !.k = <<[col |-> col, sel |-> sel]>>]
+ACtlRmTgtTag(t, col, sel) == [A("ctl") EXCEPT !.s = "ruleRemoveTargetByTag", !.op = t, !.k = <<[col |-> col, sel |-> sel]>>]
+ACtlRmTgtMsg(m, col, sel) == [A("ctl") EXCEPT !.s = "ruleRemoveTargetByMsg", !.op = m, !.k = <<[col |-> col, sel |-> sel]>>]
 ACtlEngine(m)    == [A("ctl") EXCEPT !.s = "ruleEngine", !.op = m]
 
 NonDisruptive(act) == act.a \in {"setvar", "ctl"}
@@ -290,7 +304,12 @@ DoSetvar(st, act) ==
 
 DoCtl(st, act) ==
   CASE act.s = "ruleRemoveById"       -> [st EXCEPT !.rmIds = @ \cup {act.n}]
-    [] act.s = "ruleRemoveTargetById" -> [st EXCEPT !.rmTgts = Append(@, [id |-> act.n, col |-> act.k[1].col, sel |-> act.k[1].sel])]
+    [] act.s = "ruleRemoveByIdRange"  -> [st EXCEPT !.rmRanges = @ \cup {<<act.n, act.v[1]>>}]
+    [] act.s = "ruleRemoveByTag"      -> [st EXCEPT !.rmTags = @ \cup {act.op}]
+    [] act.s = "ruleRemoveByMsg"      -> [st EXCEPT !.rmMsgs = @ \cup {act.op}]
+    [] act.s = "ruleRemoveTargetById" -> [st EXCEPT !.rmTgts = Append(@, [by |-> "id", id |-> act.n, hi |-> act.n, tag |-> "", col |-> act.k[1].col, sel |-> act.k[1].sel])]
+    [] act.s = "ruleRemoveTargetByTag" -> [st EXCEPT !.rmTgts = Append(@, [by |-> "tag", id |-> 0, hi |-> 0, tag |-> act.op, col |-> act.k[1].col, sel |-> act.k[1].sel])]
+    [] act.s = "ruleRemoveTargetByMsg" -> [st EXCEPT !.rmTgts = Append(@, [by |-> "msg", id |-> 0, hi |-> 0, tag |-> act.op, col |-> act.k[1].col, sel |-> act.k[1].sel])]
     [] act.s = "ruleEngine"           -> [st EXCEPT !.engine = act.op]
     [] OTHER -> st
 
@@ -410,19 +429,19 @@ ReorderByLog(link, data, log, k) ==
                IN <<data[j]>> \o ReorderByLog(link, rest, log, k + Len(Seen(link, data[j].val)))
 
 RECURSIVE EvalTargets(_, _, _, _, _, _, _, _)
-EvalTargets(st, req, ord, rxMode, rid, link, tgts, md) ==
+EvalTargets(st, req, ord, rxMode, r, link, tgts, md) ==
   IF tgts = << >> THEN [st |-> st, md |-> md]
-  ELSE LET data0 == SelectData(st, req, ord, rxMode, rid, Head(tgts))
+  ELSE LET data0 == SelectData(st, req, ord, rxMode, r, Head(tgts))
            data == IF st.guide # << >> THEN ReorderByLog(link, data0, st.guide, Len(st.ops) + 1) ELSE data0
            res  == EvalVals(st, link, data, 1, md)
-       IN EvalTargets(res.st, req, ord, rxMode, rid, link, Tail(tgts), res.md)
+       IN EvalTargets(res.st, req, ord, rxMode, r, link, Tail(tgts), res.md)
 
-EvalLink(st, req, ord, rxMode, rid, link) ==
+EvalLink(st, req, ord, rxMode, r, link) ==
   IF ~link.hasOp
     THEN \* SecAction / SecMarker: matches unconditionally, once, with empty match data
          LET d == Datum("", << >>, << >>) IN
          [st |-> RunActs(MatchVariable(st, d), link.acts), md |-> <<d>>]
-    ELSE EvalTargets(st, req, ord, rxMode, rid, link, link.targets, << >>)
+    ELSE EvalTargets(st, req, ord, rxMode, r, link, link.targets, << >>)
 
 (***************************************************************************)
 (* A rule:  [id, phase, marker, links (1..n; links[1] is the starter),     *)
@@ -432,7 +451,7 @@ EvalLink(st, req, ord, rxMode, rid, link) ==
 RECURSIVE EvalChain(_, _, _, _, _, _, _)
 EvalChain(st, req, ord, rxMode, r, i, md) ==
   IF i > Len(r.links) THEN [st |-> st, md |-> md, ok |-> TRUE]
-  ELSE LET res == EvalLink(st, req, ord, rxMode, r.id, r.links[i]) IN
+  ELSE LET res == EvalLink(st, req, ord, rxMode, r, r.links[i]) IN
        IF res.md = << >> THEN [st |-> res.st, md |-> << >>, ok |-> FALSE]
        ELSE EvalChain(res.st, req, ord, rxMode, r, i + 1, md \o res.md)
 
@@ -451,7 +470,11 @@ EvalRule(st, req, ord, rxMode, r) ==
 (* One iteration of the phase loop (RuleGroup.Eval), in the order of the   *)
 (* code's tests.  Returns [st, branch].                                    *)
 (***************************************************************************)
-Removed(st, id) == id \in st.rmIds
+Removed(st, r) ==
+  \/ r.id \in st.rmIds
+  \/ \E rg \in st.rmRanges : r.id >= rg[1] /\ r.id <= rg[2]
+  \/ \E t \in 1..Len(r.tags) : r.tags[t] \in st.rmTags
+  \/ (r.msg # "" /\ r.msg \in st.rmMsgs)
 
 AllowStops(st, p) ==
   CASE st.allow = "phase"   -> TRUE
@@ -464,7 +487,7 @@ Br(st, b) == [st |-> st, branch |-> b]
 StepRule(st, req, ord, rxMode, r, p) ==
   CASE st.intr # None /\ p # 5       -> Br(st, "interruptBreak")
     [] r.phase # 0 /\ r.phase # p     -> Br(st, "phaseFiltered")
-    [] Removed(st, r.id)              -> Br(st, "removed")
+    [] Removed(st, r)                 -> Br(st, "removed")
     [] st.skipAfter # ""              -> Br(IF r.marker = st.skipAfter THEN [st EXCEPT !.skipAfter = ""] ELSE st,
                                             "pendingMarker")
     [] st.skip > 0                    -> Br([st EXCEPT !.skip = @ - 1], "skipCounter")
@@ -490,6 +513,48 @@ RunTx(st, req, ord, rxMode, rules, p) ==
   ELSE IF st.engine = "Off" THEN st
   ELSE IF st.intr # None /\ p # 5 THEN RunTx(st, req, ord, rxMode, rules, p + 1)
   ELSE RunTx(RunPhase(st, req, ord, rxMode, rules, p), req, ord, rxMode, rules, p + 1)
+
+(***************************************************************************)
+(* Configuration-time exclusions and updates (C17): each directive is a     *)
+(* rewriting of the rule list written so far; the meaning of the            *)
+(* configuration is the meaning of the rewritten list.                      *)
+(*   dir = [d, ids, lo, hi, s, tgts, acts]                                  *)
+(*     ids    list of rule ids; lo..hi an inclusive id range (0,0 = none)   *)
+(*     s      tag or message                                                *)
+(*     tgts   targets to append; a target whose sel.t = "none" only carries *)
+(*            exclusions (excl) for the existing targets of its collection  *)
+(*     acts   actions to add (a disruptive one replaces the rule's own)     *)
+(***************************************************************************)
+DirSelectsById(d, r) == r.id # 0 /\ (r.id \in Range(d.ids) \/ (d.hi # 0 /\ r.id >= d.lo /\ r.id <= d.hi))
+HasTag(r, t) == \E k \in 1..Len(r.tags) : r.tags[k] = t
+
+IsDisruptive(act) == act.a \in {"deny", "drop", "redirect", "pass", "block", "allow"}
+
+AddExcl(targets, tg) ==      \* exclusions of tg applied to the listed targets of the same collection
+  [k \in 1..Len(targets) |-> IF targets[k].col = tg.col THEN [targets[k] EXCEPT !.excl = @ \o tg.excl] ELSE targets[k]]
+RECURSIVE UpdTargets(_, _)
+UpdTargets(targets, tgts) ==
+  IF tgts = << >> THEN targets
+  ELSE LET tg == Head(tgts)
+           t1 == AddExcl(targets, tg)
+           t2 == IF tg.sel.t = "none" THEN t1 ELSE Append(t1, [tg EXCEPT !.excl = << >>])
+       IN UpdTargets(t2, Tail(tgts))
+UpdRuleTargets(r, tgts) == [r EXCEPT !.links[1].targets = UpdTargets(@, tgts)]
+UpdRuleActions(r, acts) ==
+  LET hasD == \E k \in 1..Len(acts) : IsDisruptive(acts[k])
+      kept == IF hasD THEN SelectSeq(r.links[1].acts, LAMBDA a : ~IsDisruptive(a)) ELSE r.links[1].acts
+  IN [r EXCEPT !.links[1].acts = kept \o acts]
+
+ApplyDir(rules, d) ==
+  CASE d.d = "SecRuleRemoveById"       -> SelectSeq(rules, LAMBDA r : ~DirSelectsById(d, r))
+    [] d.d = "SecRuleRemoveByTag"      -> SelectSeq(rules, LAMBDA r : ~HasTag(r, d.s))
+    [] d.d = "SecRuleRemoveByMsg"      -> SelectSeq(rules, LAMBDA r : ~(r.msg # "" /\ r.msg = d.s))
+    [] d.d = "SecRuleUpdateTargetById" -> [k \in 1..Len(rules) |-> IF DirSelectsById(d, rules[k]) THEN UpdRuleTargets(rules[k], d.tgts) ELSE rules[k]]
+    [] d.d = "SecRuleUpdateTargetByTag" -> [k \in 1..Len(rules) |-> IF HasTag(rules[k], d.s) THEN UpdRuleTargets(rules[k], d.tgts) ELSE rules[k]]
+    [] d.d = "SecRuleUpdateActionById" -> [k \in 1..Len(rules) |-> IF DirSelectsById(d, rules[k]) THEN UpdRuleActions(rules[k], d.acts) ELSE rules[k]]
+    [] OTHER -> rules
+RECURSIVE ApplyDirs(_, _)
+ApplyDirs(rules, dirs) == IF dirs = << >> THEN rules ELSE ApplyDirs(ApplyDir(rules, Head(dirs)), Tail(dirs))
 
 (***************************************************************************)
 (* What an observer of the public API sees (the projection both            *)
